@@ -2,6 +2,7 @@ package analysis
 
 import (
 	"fmt"
+	"github.com/go-openapi/jsonpointer"
 	"path"
 	"sort"
 	"strings"
@@ -41,8 +42,8 @@ func (isn *InlineSchemaNamer) Name(key string, schema *spec.Schema, aschema *Ana
 
 		// replace values on schema
 		debugLog("rewriting schema to ref: key=%s with new name: %s", key, newName)
-		if err := replace.RewriteSchemaToRef(isn.Spec, key,
-			spec.MustCreateRef(path.Join(definitionsPath, newName))); err != nil {
+		refToNew := spec.MustCreateRef(path.Join(definitionsPath, jsonpointer.Escape(newName)))
+		if err := replace.RewriteSchemaToRef(isn.Spec, key, refToNew); err != nil {
 			return ErrInlineDefinition(newName, err)
 		}
 
@@ -61,15 +62,15 @@ func (isn *InlineSchemaNamer) Name(key string, schema *spec.Schema, aschema *Ana
 				isn.opts.flattenContext.warnings = append(isn.opts.flattenContext.warnings, r.Warnings...)
 			}
 
-			if r.Ref.String() != key && (r.Ref.String() != path.Join(definitionsPath, newName) || path.Dir(v.String()) == definitionsPath) {
+			// $ref's are compared as decoded JSON pointers: their text is URL-escaped, keys and names are not
+			if "#"+r.Ref.GetPointer().String() != key && (r.Ref.String() != refToNew.String() || path.Dir(v.String()) == definitionsPath) {
 				continue
 			}
 
 			debugLog("found a $ref to a rewritten schema: %s points to %s", k, v.String())
 
 			// rewrite $ref to the new target
-			if err := replace.UpdateRef(isn.Spec, k,
-				spec.MustCreateRef(path.Join(definitionsPath, newName))); err != nil {
+			if err := replace.UpdateRef(isn.Spec, k, refToNew); err != nil {
 				return err
 			}
 		}
